@@ -16,7 +16,7 @@ RULE = (
 )
 ASSUMPTIONS = ["rule metadata comes from Linter.rule_tuples(); matching semantics are the model's own"]
 TIMEOUT = {"quick": 400, "thorough": 900}
-MIN_NONTRIVIAL = {"quick": 150, "thorough": 1500}
+MIN_NONTRIVIAL = {"quick": 100, "thorough": 1500}
 REQUIRED_COUNTERS = ["rulepacks_compared", "independence_rule_pairs"]
 PROBE = "SELECT a,b  from tbl AS t WHERE x=1 and Y = 2 ;\nselect A.*, count(*) FROM foo a join bar on a.id = bar.id group by 1\n"
 
@@ -93,7 +93,7 @@ def cases(tier, seed):
         c["stratum"] = "ind:" + c["stratum"]
         ind.append(c)
     if tier == "quick":
-        return stratified_sample(sel, lambda c: c["stratum"], 700, seed) + stratified_sample(ind, lambda c: c["stratum"], 260, seed)
+        return stratified_sample(sel, lambda c: c["stratum"], 450, seed) + stratified_sample(ind, lambda c: c["stratum"], 140, seed)
     return sel + ind
 
 
